@@ -320,6 +320,55 @@ extern "C" void h_ovl_oom() {
 }
 #endif
 
+#if C19_PART >= 6
+// ================================================================= extra object whose factory throws
+// Up to three frames are created and completed one after another on one promise_extra_storage; the factory of frame `bad` throws. That creation creates no
+// frame: no extra object exists for it (none constructed, none destroyed), its block does not stay behind, and the other frames are not affected.
+extern "C" void h_extra_throw() {
+    const int nframes = 1 + vf_choice(3);
+    const int bad = vf_choice(nframes);
+    Slot slot[3];
+    for (int i = 0; i < nframes; ++i) { slot[i].size = vf_choice(2); slot[i].seed = nondet_int(); }
+    vf_warmup();
+    const long base = vf_live_allocs();
+    vf_probe_counts pc;
+    int cur_seed = 0; bool throw_now = false;
+    {
+        S st([&]() -> vf_probe { if (throw_now) throw vf_tag_exc{7}; return vf_probe(pc, cur_seed); });
+        for (int i = 0; i < nframes; ++i) {
+            Slot &s = slot[i];
+            s.open = s.gate.get_promise();
+            cur_seed = s.seed; throw_now = i == bad;
+            const int before_c = pc.constructed, before_d = pc.destroyed;
+            bool threw = false;
+            try {
+                Co co = make(st, s);
+                VF_ASSERT(pc.constructed - pc.destroyed == 1 && st->v == s.seed, "C19 the extra object is usable as soon as the coroutine object exists");
+                s.started = 1;
+                s.res << [&] { return co.start(); };
+            } catch (const vf_tag_exc &) { threw = true; }
+            VF_ASSERT(threw == (i == bad), "VF_SPEC the creation fails exactly when its factory throws");
+            if (threw) {
+                VF_ASSERT(pc.constructed == before_c, "VF_SPEC the throwing factory constructs nothing");
+                VF_ASSERT(pc.destroyed == before_d, "C19 no extra object is destroyed for a frame whose extra object was never constructed");
+                VF_ASSERT(live_blocks() == 0, "C19 a creation that fails leaves no block behind");
+                s.open(drop);
+            } else {
+                s.open();
+                VF_ASSERT(s.res.ready() && s.res.value() == s.seed && s.ok == 1, "C19 the frame's locals survive its suspension unmodified (canary)");
+                VF_ASSERT(live_blocks() == 0, "C19 the block is released when the frame is destroyed");
+                VF_ASSERT(pc.constructed == pc.destroyed, "C19 the extra object is destroyed exactly once with the frame");
+            }
+            vf_out(pc.constructed * 10 + pc.destroyed);
+        }
+    }
+    VF_ASSERT(vf_live_allocs() == base, "C19 all heap memory of the policy (blocks, fallbacks) is released, none twice");
+    VF_ASSERT(pc.constructed == pc.destroyed, "C19 every extra object is destroyed exactly once");
+    vf_choice_end();
+    vf_witness();
+}
+#endif
+
 #if C19_PART == 3
 // ================================================================= stack_storage: two activations prepared before either coroutine exists
 // The documented usage is: construct the storage from the shared state, alloca(size_t(storage)) bytes, create the coroutine. When two
